@@ -584,11 +584,13 @@ func plans(thorough bool) []plan {
 		return family{name: name, levels: levels, maxVers: 2, maxPts: 9, maxTombs: maxTombs, minTombs: minTombs,
 			maxDup: 1, maxFiles: 2 * levels, maxTotal: maxTotal, mem: mem}
 	}
+	memOnly := func(f family) family { f.onlyMem = true; return f }
 	if !thorough {
 		return []plan{
 			{fam: fam("1-level/<=3 entries", 1, 3, 2, 0, true), depth: 3, bounds: b15, tsun: true},
-			{fam: fam("2-level/<=3 entries/<=1 tombstone", 2, 3, 1, 0, true), depth: 3, bounds: b15, tsun: true},
+			{fam: fam("2-level/<=3 entries/<=1 tombstone", 2, 3, 1, 0, false), depth: 3, bounds: b15, tsun: true},
 			{fam: fam("2-level/3 entries/2 tombstones", 2, 3, 2, 2, false), depth: 3, bounds: b5, tsun: true},
+			{fam: memOnly(fam("2-level/<=3 entries/<=1 tombstone/newest level a memtable", 2, 3, 1, 0, false)), depth: 3, bounds: b5, tsun: true},
 		}
 	}
 	return []plan{
